@@ -56,6 +56,7 @@ def v3_shapes(tier):
         S.append(G.v3_suback(n))
     for t in ("Pingreq", "Pingresp", "Disconnect"):
         S.append(G.v3_empty(t))
+        S.append(G.v3_empty(t, 2))
     if tier == "thorough":
         have = {s.name for s in S}
         for f in range(256):
@@ -133,6 +134,7 @@ def v5_shapes(tier):
         S.append(G.v5_auth("long", pl))
     for t in ("Pingreq", "Pingresp"):
         S.append(G.v5_empty(t))
+        S.append(G.v5_empty(t, 1))
     # shape-level malformations: unknown / disallowed / duplicated property, wrong property length
     S.append(G.v5_connack([("raw", 0x00)]))
     S.append(G.v5_connack([("raw", 0x7F)]))
